@@ -7,7 +7,7 @@ for id in $IDS; do
   P=${id%%-*}
   [ -f seeded/$id/patch.diff ] || continue
   git -C /repo checkout -q -- . 
-  if ! git -C /repo apply seeded/$id/patch.diff 2>/dev/null; then echo "$id: patch does not apply"; continue; fi
+  if ! git -C /repo apply /verif/seeded/$id/patch.diff 2>/dev/null; then echo "$id: patch does not apply"; continue; fi
   ./check $P --tier quick > /tmp/sweep-$id.out 2>&1; RC=$?
   git -C /repo checkout -q -- .
   N=$(grep -c '^VIOLATION' /tmp/sweep-$id.out)
